@@ -68,13 +68,19 @@ RULE = (
     "with lens [T,T-3] plus both elements alone, widths {2,8}, no fusion / plain fusion beta .3 with the "
     "table LM, 3 (thorough 8) seed-valued matrix pairs with a +4 peak per frame on labels that never "
     "repeat back to back (hypotheses of 14..22 tokens), float32 and float64. Variants of one call that "
-    "must be bit-identical to the plain call (V in {1,2}, T=3, N=2, lens [3,1],[2,3],[3,3],[0,2], widths "
+    "must give the plain call's outcome (V in {1,2}, T=3, N=2, lens [3,1],[2,3],[3,3],[0,2], widths "
     "{2,P+5}, none / plain .3 / mixture 1, every pool rotation): lens as int32, non-contiguous logits, "
     "lens as a stride-0 view, logits requiring grad (no no_grad), torch.inference_mode, default dtype "
     "float64. Distinct by construction; non-trivial = at least one element "
     "has a valid frame. states = distinct (V, frame, beam contents) reached; transitions = frames "
     "advanced by the implementation; traces = solo searches / advance runs matched prefix-by-prefix "
-    "against Oracle B."
+    "against Oracle B. EXACT ZEROS AND ONES (round 6): V=2, every sequence of 3 (thorough 4) frames each certain of one "
+    "label (posterior exactly one-hot through +-1000 logits; a quarter also through -inf logits; a fifth 'certainly "
+    "not label a'), every length 0..3, widths {1,2,9}, alone and batched next to another such element under all "
+    "lens patterns, x {no LM, plain .3, plain 1, mixture .3} x a lexicon LM with hard zeros (after a token only the "
+    "same / only the other token is possible): whole beams of zero mass occur; both oracles as before, never NaN. "
+    "Variants of one call are now the same outcome up to rounding (masses to 1e-5 relative, exact ties and ties at "
+    "the pruning boundary may be reordered), and 'decreasing probability' tolerates a one-ulp inversion of an exact tie."
 )
 ASSUMPTIONS = [
     "small scope: T<=3 (quick) / 4 (5 for N<=2) (thorough), V<=2 (3 in thorough), N<=3, logits in [-2,2] (+8 on "
@@ -295,7 +301,9 @@ def structure(ctx, sig0, case, view, V, own_len):
     for sym, det in problems:
         ctx.violation(dict(sig0, symptom=sym), case, dict(det, probs=p))
     for k in range(W - 1):
-        if not (p[k] >= p[k + 1]):
+        # decreasing probability, up to rounding: an exact tie that internal rescaling turns into a one-ulp inversion is
+        # not a violation (rtol 1e-6 on positive masses; the 0 / -inf tail is compared exactly)
+        if not (p[k] >= p[k + 1]) and not (p[k] > 0 and p[k + 1] > 0 and p[k + 1] - p[k] <= 1e-6 * p[k + 1]):
             region = "positive" if p[k + 1] > 0 else "tail"
             ctx.violation(dict(sig0, symptom="order-violated", region=region), case, {"slot": k, "probs": p})
             break
@@ -513,6 +521,86 @@ def run_search_shard(ctx, spec, tier, seed):
         ctx.count("lm_extract_by_src", env.lm.extracts)
         ctx.count("lm_mix_by_mask", env.lm.mixes)
         ctx.count("lm_out_of_vocabulary_token_read", env.lm.garbage_reads)
+
+
+# ----------------------------------------------------------------------------------------------
+# probabilities of exactly 0 and 1 (round 6): saturated frames x a language model with hard zeros
+SURE = 1000.0  # softmax([1000, -1000, -1000]) is exactly one-hot in float32 AND float64 (exp(-2000) underflows to 0)
+
+
+class ZerosEnv(Env):
+    """V = 2.  Pool = EVERY sequence of ZT frames each of which is certain of one label (label 0, label 1 or blank:
+    posterior exactly one-hot, once through +-1000 logits and once through -inf logits), plus half-certain ones.  The
+    fused LM is a lexicon: after a token only the SAME token (lexicon 'repeat') or only the OTHER one ('alternate') is
+    possible (log-probability -inf for the rest), the first token is free.  Whole beams of zero mass, products 0 * 1,
+    0 ** beta and log(0) all occur; the exact oracle (all alignments) and the reference recursion still apply."""
+
+    def __init__(self, cfg, dtype, seed, lexicon, ZT):
+        V = 2
+        labels = list(itertools.product(range(V + 1), repeat=ZT))
+        self._znames = []
+        for lab in labels:
+            self._znames.append("sure:" + "".join(map(str, lab)))
+        for lab in labels[:: 4]:
+            self._znames.append("ninf:" + "".join(map(str, lab)))
+        for lab in labels[1:: 5]:
+            self._znames.append("half:" + "".join(map(str, lab)))
+        self.lexicon = lexicon
+        super().__init__(V, cfg, dtype, seed, [])
+        self.names = list(self._znames)
+        for n in self.names:
+            kind, lab = n.split(":")
+            rows = []
+            for t in range(ROWS):
+                if t >= len(lab):
+                    rows.append([0.0] * (V + 1))
+                    continue
+                a = int(lab[t])
+                if kind == "sure":
+                    rows.append([SURE if v == a else -SURE for v in range(V + 1)])
+                elif kind == "ninf":
+                    rows.append([0.0 if v == a else NEG_INF for v in range(V + 1)])
+                else:  # certain that it is NOT label a; the other two equally likely
+                    rows.append([NEG_INF if v == a else 0.0 for v in range(V + 1)])
+            self.mat_t[n] = torch.tensor(rows, dtype=self.dtype)
+            self.mat_l[n] = rows
+        self.off = {n: 0 for n in self.names}
+        if cfg[0] != "none":
+            ncodes = (V + 1) ** ROWS
+            rng = random.Random(f"c05-lexicon-{seed}")
+            first = [round(rng.uniform(-1, 1), 2) for _ in range(V)]
+            table = []
+            for code in range(ncodes):
+                if code == 0:
+                    table.append(first)
+                    continue
+                last = (code - 1) % (V + 1)  # last consumed token (codes are base-(V+1) digits tok+1)
+                allowed = last if lexicon == "repeat" else 1 - last
+                table.append([0.0 if v == allowed else NEG_INF for v in range(V)])
+            table_t = torch.tensor(table, dtype=self.dtype)
+            bias = torch.zeros(NBIAS, V, dtype=self.dtype)
+            self.lm = TableLM(V, table_t, bias)
+            self.table_l, self.bias_l = table, bias.tolist()
+        self.sig_extra = {"regime": "exact-zeros", "lexicon": lexicon}
+        self.case_extra = {"zeros": {"lexicon": lexicon, "ZT": ZT}}
+
+
+def run_zeros_shard(ctx, spec, tier, seed):
+    ZT = 3 if tier == "quick" else 4
+    env = ZerosEnv(tuple(spec["cfg"]), spec["dtype"], seed, spec["lexicon"], ZT)
+    names = env.names
+    for name in names:
+        for l in range(ZT + 1):
+            for w in (1, 2, 9):
+                solo(ctx, env, name, l, w, tier)
+                ctx.count("exact-zero-regime-searches")
+    # batched: a doomed element (every alignment impossible) next to live ones, all lens
+    for i in range(0, len(names) - 1, 3):
+        pair = [names[i], names[(i * 7 + 5) % len(names)]]
+        for lens in ((ZT, ZT), (ZT, 1), (2, ZT), (0, ZT)):
+            for w in (2, 9):
+                run_batch(ctx, env, ZT, pair, list(lens), w, tier)
+                ctx.count("exact-zero-regime-searches")
 
 
 # ----------------------------------------------------------------------------------------------
@@ -734,19 +822,54 @@ def reuse_inputs(names, r, T):
     ]
 
 
+RTOL_VARIANT = 1e-5  # two legal evaluation routes (grad / no grad, float64 default ...) may differ by rounding
+
+
+def _as_dicts(y, lens, p):
+    out = []
+    for n in range(p.size(0)):
+        d, tail = {}, []
+        for k in range(p.size(1)):
+            m = p[n, k].item()
+            if m > 0:
+                d[tuple(y[: int(lens[n, k]), n, k].tolist())] = m
+            else:
+                tail.append(m)
+        out.append((d, sorted(tail, key=lambda x: (x != x, x))))
+    return out
+
+
 def _same_result(a, b):
+    """None when the two results are the same search outcome.  Bit-identical results pass at once; otherwise the
+    positive-mass prefixes are compared as sets with masses to RTOL_VARIANT (rounding may reorder exact ties and may
+    swap prefixes tied at the pruning boundary: those are tolerated, never a larger difference)."""
     (ya, la, pa), (yb, lb, pb) = a, b
     if ya.shape != yb.shape or la.shape != lb.shape or pa.shape != pb.shape:
         return "shape"
-    if not torch.equal(pa.isnan(), pb.isnan()) or not torch.equal(pa.nan_to_num(nan=-7.0), pb.nan_to_num(nan=-7.0)):
+    if not torch.equal(pa.isnan(), pb.isnan()):
         return "masses"
-    pos = pa > 0
-    if not torch.equal(la[pos], lb[pos]):
-        return "lengths"
-    if ya.size(0):
-        mask = (torch.arange(ya.size(0)).view(-1, 1, 1) < la.unsqueeze(0)) & pos.unsqueeze(0)
-        if not torch.equal(ya[mask], yb[mask]):
-            return "prefixes"
+    exact = torch.equal(pa.nan_to_num(nan=-7.0), pb.nan_to_num(nan=-7.0))
+    if exact:
+        pos = pa > 0
+        if not torch.equal(la[pos], lb[pos]):
+            return "lengths"
+        if ya.size(0):
+            mask = (torch.arange(ya.size(0)).view(-1, 1, 1) < la.unsqueeze(0)) & pos.unsqueeze(0)
+            if not torch.equal(ya[mask], yb[mask]):
+                return "prefixes"
+        return None
+    for (da, ta), (db, tb) in zip(_as_dicts(ya, la, pa), _as_dicts(yb, lb, pb)):
+        if len(ta) != len(tb) or any(x != y_ and not (x != x and y_ != y_) for x, y_ in zip(ta, tb)):
+            return "masses"
+        floor = min(list(da.values()) + list(db.values())) if (da or db) else 0.0
+        for key in set(da) | set(db):
+            ma, mb = da.get(key), db.get(key)
+            if ma is None or mb is None:
+                m = ma if mb is None else mb
+                if abs(m - floor) > RTOL_VARIANT * abs(floor):  # not a tie at the pruning boundary
+                    return "prefixes"
+            elif abs(ma - mb) > RTOL_VARIANT * max(abs(ma), abs(mb)):
+                return "masses"
     return None
 
 
@@ -1377,6 +1500,10 @@ def shards(tier, seed):
         for dt in DTYPES:
             out.append({"kind": "advance", "V": V, "dtype": dt})
             out.append({"kind": "reuse", "V": V, "dtype": dt})
+    for cfg in (("plain", 0.3), ("plain", 1.0), ("mixture", 0.3), ("none", 0.0)):
+        for lexicon in (("repeat", "alternate") if cfg[0] != "none" else ("repeat",)):
+            for dt in DTYPES:
+                out.append({"kind": "zeros", "cfg": list(cfg), "lexicon": lexicon, "dtype": dt})
     parts = 4 if tier == "thorough" else 1
     for V in (1, 2):
         for cfg in CFGS:
@@ -1393,7 +1520,9 @@ def shards(tier, seed):
 
 def run_shard(spec, tier, seed):
     ctx = Ctx()
-    if spec["kind"] == "search":
+    if spec["kind"] == "zeros":
+        run_zeros_shard(ctx, spec, tier, seed)
+    elif spec["kind"] == "search":
         run_search_shard(ctx, spec, tier, seed)
     elif spec["kind"] == "reuse":
         run_reuse_shard(ctx, spec, tier, seed)
@@ -1414,7 +1543,9 @@ def replay(case):
     ctx = Ctx()
     if case["kind"] == "search":
         tier = case.get("tier", "thorough")
-        if "flavour" in case:
+        if "zeros" in case:
+            env = ZerosEnv(tuple(case["cfg"]), case["dtype"], case["seed"], case["zeros"]["lexicon"], case["zeros"]["ZT"])
+        elif "flavour" in case:
             env = FlavourEnv(case["V"], tuple(case["cfg"]), case["dtype"], case["seed"], pool_names("thorough"),
                              case["flavour"])
         else:
